@@ -6,6 +6,7 @@ import (
 	"io"
 	"os"
 	"runtime/debug"
+	"strings"
 
 	"fortio.org/log"
 	"grol.io/grol/extensions"
@@ -65,7 +66,7 @@ func main() {
 		func() {
 			defer func() {
 				if r := recover(); r != nil {
-					c.Infra(fmt.Errorf("harness panic: %v", r))
+					c.Infra(fmt.Errorf("harness panic: %v\n%s", r, harnessFrames(string(debug.Stack()))))
 				}
 			}()
 			if c.infra == nil {
@@ -117,4 +118,16 @@ func main() {
 	default:
 		usage()
 	}
+}
+
+// harnessFrames keeps the frames of the harness and of grol from a stack trace (where a harness panic came from).
+func harnessFrames(stack string) string {
+	var keep []string
+	lines := strings.Split(stack, "\n")
+	for i := 0; i+1 < len(lines) && len(keep) < 12; i++ {
+		if strings.HasPrefix(lines[i], "main.") || strings.HasPrefix(lines[i], "grol.io/grol/") {
+			keep = append(keep, lines[i]+" "+strings.TrimSpace(lines[i+1]))
+		}
+	}
+	return strings.Join(keep, "\n")
 }
